@@ -2,7 +2,7 @@
 from sched import *
 
 PROP = "C06"
-THEOREMS = ["C06", "C06Bound", "C06Term"]
+THEOREMS = ["C06", "C06Bound", "C06Term", "C06Runner"]
 
 
 def probe_f19(run, har):
